@@ -32,6 +32,8 @@ MODELS = {
     # leaves (a point and a function value) are created AFTER the objective, while the class constraints are generated
     "qg_none": dict(cls="ConvexQGFunction", par=0, pattern="none", metric="negdist", init="dist", n=1),
     "rsi_none": dict(cls="RsiEbFunction", par=0, pattern="none", metric="negdist", init="dist", n=2),
+    # an optimum (9.5e-7) below every tolerance of the grid
+    "tiny": dict(cls="SmoothStronglyConvexFunction", par=3, pattern="sf", metric="dist", init="dist", n=5),
 }
 HEUR = ["trace", "logdet1", "logdet2", "logdet3"]
 TOLS = [1e-6, 1e-4, 1e-3, 1e-2]
